@@ -133,6 +133,7 @@ pub fn run(tier: Tier, seed: u64) -> i32 {
         case.inputs = Inputs { scalars: vec![scalar], points: vec![p, q], digits: vec![] };
         ev.bucket(&format!("class.{}", pname));
         ev.set_insert("components", case.component.as_str());
+        let case = if ci % 3 == 1 { super::gadget::in_context(case, &mut rng, true, &ev) } else { case };
         let Some(h) = lab.honest(&case) else { return };
         // targeted: coordinates of additions replaced by the negated / foreign point
         let own: Vec<usize> = h.own.clone().collect();
@@ -228,6 +229,7 @@ pub fn run(tier: Tier, seed: u64) -> i32 {
     ev.floor("end-to-end", ev.bucket_get("end_to_end"), 10);
     ev.floor("near-miss assignments (one sub-identity on one row) refused by the real prover", ev.bucket_get("near_miss.end_to_end"), 50);
     ev.floor("sub-identities covered by near misses", ev.set_len("near_miss_identities") as u64, 2);
+    ev.floor("cases run in a context of earlier calls on the operands", ev.bucket_get("context.cases"), 150);
     ev.finish()
 }
 
